@@ -64,6 +64,13 @@ GETF = S(r'return utils::(\w+);', r'return (vx_fn)utils__\1;', name='R5:referenc
 F('char_term__get_ftor', r'constexpr const auto& get_ftor\(\)', 'vx_fn char_term__get_ftor(const struct char_term* self)', [GETF], CT)
 F('string_term__get_ftor', r'constexpr const auto& get_ftor\(\)', 'vx_fn string_term__get_ftor(const struct string_term* self)', [GETF], ST)
 F('regex_term__get_ftor', r'constexpr const auto& get_ftor\(\)', 'vx_fn regex_term__get_ftor(const struct regex_term* self)', [GETF], [r'class\s+regex_term\b(?!;)'])
+# ---- detail::make_term: a bare char / string literal in terms(...) or in a rule becomes a char_term / string_term with the default precedence and associativity
+F('detail__make_term_char', r'constexpr auto make_term\(char c\)', 'struct char_term detail__make_term_char(char c)',
+  [Call(r'return char_term', _padded('{ struct char_term vx_r; char_term__ctor', '&vx_r', [None, 'VX_CT_DEF_PREC', 'VX_CT_DEF_ASSOC']), name='R19:char_term(c) with the declaration\'s default arguments'),
+   S(r'(char_term__ctor\([^;]*\));', r'\1; return vx_r; }', name='R16:temporary returned by value')], between_ok=r'\s*')
+F('detail__make_term_string', r'constexpr auto make_term\(const char \(&str\)\[N\]\)', 'struct string_term detail__make_term_string(const char* str)',
+  [Call(r'return string_term<N>', _padded('{ struct string_term vx_r; string_term__ctor', '&vx_r', [None, 'VX_ST_DEF_PREC', 'VX_ST_DEF_ASSOC']), name='R19:string_term<N>(str) with the declaration\'s default arguments'),
+   S(r'(string_term__ctor\([^;]*\));', r'\1; return vx_r; }', name='R16:temporary returned by value')], between_ok=r'\s*')
 # ---- string_term<DataSize>
 F('string_term__ctor', r'constexpr string_term\(const char \(&str\)\[DataSize\], int precedence = 0, ' + ASSOC + r'\)',
   'void string_term__ctor(struct string_term* self, const char* str, int precedence, int a)',
@@ -128,6 +135,8 @@ __CPROVER_ensures(g_k < n ==> a1[g_k] == a2[g_k]);
 '''
 UNIT = Unit('terms', PRELUDE, fns, consts=[('VX_NAME_SIZE', r'const static size_t name_size = (\d+);', None),
     ('VX_TERM_DEF_PREC', r'constexpr term\(int precedence = ([^,]+), associativity a = [^)]+\)', None), ('VX_TERM_DEF_ASSOC', r'constexpr term\(int precedence = [^,]+, associativity a = ([^)]+)\)', None),
+    ('VX_CT_DEF_PREC', r'constexpr char_term\(char c, int precedence = ([^,]+), associativity a = [^)]+\)', None), ('VX_CT_DEF_ASSOC', r'constexpr char_term\(char c, int precedence = [^,]+, associativity a = ([^)]+)\)', None),
+    ('VX_ST_DEF_PREC', r'constexpr string_term\(const char \(&str\)\[DataSize\], int precedence = ([^,]+), associativity a = [^)]+\)', None), ('VX_ST_DEF_ASSOC', r'constexpr string_term\(const char \(&str\)\[DataSize\], int precedence = [^,]+, associativity a = ([^)]+)\)', None),
     ('VX_RT_DEF_PREC', r'constexpr regex_term\(const char \*custom_name, int precedence = ([^,]+), associativity a = [^)]+\)', None),
     ('VX_RT_DEF_ASSOC', r'constexpr regex_term\(const char \*custom_name, int precedence = [^,]+, associativity a = ([^)]+)\)', None)])
 UNIT.enums = [PC.ENUMS[1]]
